@@ -222,7 +222,7 @@ func restartPreserves(prop string, x *OCtx, t *Trans) []Violation {
 		if d := rawSetDiff(pre.Withdraw, post.Withdraw); d != "" {
 			add("withdrawal-address-changes-only-by-its-owner's-message", "restart", "withdrawal addresses differ after the restart: "+d)
 		}
-	case "C03", "C14":
+	case "C03", "C14", "C04":
 		for _, br := range pre.Bindings {
 			qb := post.Binding(br.B.ServiceName, br.B.Provider)
 			if qb != nil && (!qb.Deposit.IsEqual(br.B.Deposit) || qb.Available != br.B.Available || !qb.DisabledTime.Equal(br.B.DisabledTime)) {
